@@ -15,4 +15,4 @@ export GOTOOLCHAIN=local GOPROXY=off GOSUMDB=off GONOSUMDB='*' GONOSUMCHECK=1 GO
 export GOMODCACHE=$_modcache
 export CGO_ENABLED=${CGO_ENABLED:-1}
 export VERIF_SEED=${VERIF_SEED:-1}
-export VERIF_ROOT REPO
+export VERIF_ROOT REPO VERIF_REPO=$REPO
